@@ -1,9 +1,121 @@
 import Driver.Json
-open Lean Drv
+import Model.Dist
+open Lean Drv Ens Ens.Dist
 
 namespace Drv.C13
 
-def handle (op : String) (_req : Json) : Except String Json :=
-  throw s!"bad-op C13.{op}"
+def errStr : Err → String
+  | .dataInvalid => "data-invalid"
+  | .indexError => "index-error"
+  | .typeError => "type-error"
+  | .valueError => "value-error"
+  | .badRequest => "bad-request"
+
+def cellJson : Cell → Json
+  | .val q => Json.mkObj [("v", ratJson q)]
+  | .sqrt q => Json.mkObj [("sqrt", ratJson q)]
+  | .nan => Json.str "nan"
+  | .untracked => Json.str "untracked"
+
+def getCell (j : Json) : Except String Cell :=
+  match j with
+  | .str "nan" => pure .nan
+  | .str "untracked" => pure .untracked
+  | .str s => throw s!"bad cell {s}"
+  | v => do let q ← getRat v; pure (.val q)
+
+def getMeta (j : Json) : Except String Meta := do
+  let dtype ← getStr (← field j "dtype")
+  let shape ← getList getNat (← field j "shape")
+  let writable ← match fieldOpt j "writable" with
+    | none => pure true
+    | some b => getBool b
+  pure { dtype := dtype, shape := shape, writable := writable }
+
+def getArrOf {ε} (f : Json → Except String ε) (j : Json) : Except String (Arr ε) := do
+  let buf ← match fieldOpt j "buf" with
+    | none => pure []
+    | some b => getList f b
+  let offset ← match fieldOpt j "offset" with
+    | none => pure 0
+    | some o => getInt o
+  let shape ← getList getNat (← field j "shape")
+  let strides ← getList getInt (← field j "strides")
+  pure { buf := buf.toArray, offset := offset, shape := shape, strides := strides }
+
+def resultJson (r : Result) : Json :=
+  Json.mkObj [("buf", listJson cellJson r.buf), ("offset", intJson r.offset),
+              ("stride", intJson r.stride), ("n", natJson r.n),
+              ("values", listJson cellJson r.values)]
+
+def handle (op : String) (req : Json) : Except String Json := do
+  match op with
+  | "call" =>
+    let kname ← getStr (← field req "kernel")
+    let k ← match Kernel.ofName kname with
+      | some k => pure k
+      | none => throw s!"unknown kernel {kname}"
+    let xj ← field req "X"
+    let yj ← field req "y"
+    let Xm ← getMeta xj
+    let ym ← getMeta yj
+    let elem ← match fieldOpt req "elem" with
+      | none => pure "int"
+      | some e => getStr e
+    let data ← match elem with
+      | "int" => do pure (Data.ints (← getArrOf getInt xj) (← getArrOf getInt yj))
+      | "rat" => do pure (Data.rats (← getArrOf getRat xj) (← getArrOf getRat yj))
+      | e => throw s!"unknown elem {e}"
+    let out ← match fieldOpt req "out" with
+      | none => pure none
+      | some oj => do pure (some (← getMeta oj, ← getArrOf getCell oj))
+    let sched ← match fieldOpt req "sched" with
+      | none => pure []
+      | some s => getList getNat s
+    match call k Xm ym data out sched with
+    | .error e => pure (errJson (errStr e))
+    | .ok r => pure (okJson (resultJson r))
+  | "rows" =>
+    -- strided read of a 2-D int view: logical rows (memory model alone)
+    let a ← getArrOf getInt req
+    match a.shape with
+    | [n, w] =>
+      if !a.extentOk then pure (errJson "bad-request") else
+      match a.rows? n w with
+      | some rows => pure (okJson (listJson (listJson intJson) rows))
+      | none => pure (errJson "bad-request")
+    | _ => pure (errJson "bad-request")
+  | "term" =>
+    -- C arithmetic of one coordinate for an integer element type
+    let kname ← getStr (← field req "kernel")
+    let k ← match Kernel.ofName kname with
+      | some k => pure k
+      | none => throw s!"unknown kernel {kname}"
+    let tname ← getStr (← field req "dtype")
+    let x ← getInt (← field req "x")
+    let y ← getInt (← field req "y")
+    match DType.ofName tname with
+    | none => pure (errJson "type-error")
+    | some t =>
+      match t.promote with
+      | none => pure (errJson "type-error")
+      | some c =>
+        let ok : Bool := match k with
+          | .euclidean => decide (NoOverflowSq c x y)
+          | .manhattan => decide (NoOverflowDiff c x y)
+          | .hamming => true
+        pure (okJson (Json.mkObj [("term", ratJson (termInt intArith k c x y)), ("no_overflow", Json.bool ok)]))
+  | "metric" =>
+    let m ← getStr (← field req "metric")
+    match Gen.metricMap.lookup m with
+    | some f => pure (okJson (Json.str f))
+    | none => pure (errJson "not-a-libdist-metric")
+  | "arith" => pure (okJson (Json.str (reprStr intArith)))
+  | "dtypes" =>
+    let kname ← getStr (← field req "kernel")
+    match Kernel.ofName kname with
+    | some k => pure (okJson (listJson (fun t => Json.str (reprStr t)) k.dtypes))
+    | none => throw s!"unknown kernel {kname}"
+  | _ => throw s!"bad-op C13.{op}"
 
 end Drv.C13
